@@ -7,7 +7,7 @@ ROOT = os.path.dirname(os.path.dirname(os.path.abspath(__file__)))
 P = {
  "C01": (True, "stateful PBT (proptest op histories) vs reference page-table model + independent hardware-style walker, 3 mapper backends incl. software MMU",
          "Exploration by stateful property-based testing: 16k generated call histories (up to 32 calls; thorough: 800k histories up to 96 calls) each run on all three mapper implementations over simulated physical memory; after every call the reference model, an independent hardware-style walk of the raw table bytes and the crate's translate/translate_addr/translate_page must agree on a probe set, and every table frame must equal the model's rendering byte for byte.",
-         'Trusts the reference model/hardware walker (written from the architecture manuals), the software MMU and the trap decoder. Recursive indices limited to slots a Linux process can host; one open known finding (huge leaf with PAT bit) is excluded by construction.', "3/C01"),
+         'Trusts the reference model/hardware walker (written from the architecture manuals), the software MMU and the trap decoder. Recursive indices limited to slots a Linux process can host.', "3/C01"),
  "C02": (True, "state-relative PBT with allocator fault schedules; documented-outcome table; before/after invariance; cross-backend differential",
          'Exploration with fault enumeration inside it: 16k histories weighted towards error states, every allocating call carrying an allocator failure schedule (none/1st/2nd/3rd/all); oracle = documented outcome per model state, byte-exact before/after invariance of all simulated memory on Err (modulo the allowed parent-flag widening), allocator request accounting and identical results across the three implementations.',
          "Same trusted base as C01. 'Any Err, never Ok' is required only where the documentation defines no outcome (entry holds a lower-level table).", "3/C02"),
@@ -102,7 +102,7 @@ def main():
         ],
         "checks": checks,
         "not_applicable": na,
-        "notes": "All checks are exploration-level property-based tests (see DESIGN.md). Known findings: KNOWN_FINDINGS.txt. Seeded breakages and which check catches them: seeded/ and DESIGN.md section 7.",
+        "notes": "All checks are exploration-level property-based tests (see DESIGN.md). Known findings: KNOWN_FINDINGS.txt (currently none open; 13 fixed by fix: commits in /repo). Seeded breakages and which check catches them: seeded/ and DESIGN.md section 7.",
     }
     with open(os.path.join(ROOT, "MANIFEST.json"), "w") as f:
         json.dump(m, f, indent=1)
